@@ -328,7 +328,7 @@ def r3(report, db, cg, M):
                                  fi.path, call, fi.qualname,
                                  'queue.%s() breaks the FIFO / exactly-once '
                                  'discipline' % m)
-        elif isinstance(p, ast.Call) and ast.unparse(p.func) == 'len':
+        elif isinstance(p, ast.Call) and ast.unparse(p.func) in ('len', 'bool'):
             report.ok(R, '%s: len(queue)' % fi.qualname)
         elif isinstance(p, (ast.If, ast.IfExp, ast.UnaryOp, ast.BoolOp,
                             ast.Compare, ast.While)):
